@@ -143,10 +143,45 @@ def cases(tier):
     for ki in (0, 2, 3, 9, 14, 17):
         yield {"region": 0, "pixel": 0.05, "kernel": ki, "hires": True}
     yield {"region": 1, "pixel": 0.025, "kernel": 0, "hires": True}
+    yield {"kind": "int-dtype"}
+
+
+INT_DIAGRAMS = [[[0, 3], [10, 210], [5, 255]], [[2, 250]], [[0, 120], [0, 127], [7, 100]]]
+
+
+def int_dtype_case(case, ctx):
+    """Diagrams stored in narrow / unsigned integer arrays (values up to 255): the image is that of the equal
+    float diagram (death - birth and the weights must not be formed in the integer dtype)."""
+    from persim import PersistenceImager
+
+    br, pr, px = (0.0, 20.0), (0.0, 260.0), 20.0
+    kernel = ("gauss_scalar", 50.0)
+    for weight in (("persistence", 2), ("linear_ramp", 0, 5, 0, 255), ("persistence", 2.0), ("linear_ramp", 0.0, 5.0, 0.0, 255.0)):   # integer and float parameters
+        im = PersistenceImager(birth_range=br, pers_range=pr, pixel_size=px, **imager_kwargs(kernel, weight))
+        res = tuple(im.resolution)
+        for D in INT_DIAGRAMS:
+            bp = [(float(b), float(d - b)) for b, d in D]
+            ref = OI.image_ref(bp, oracle_kernel(kernel), weight, im.birth_range[0], im.pers_range[0], px, res)
+            wmax = max(abs(OI.weight_value(weight, b, p)) for b, p in bp)
+            for dt in (np.int64, np.int16, np.uint8, np.uint16, np.float32, np.float64):
+                if max(x for p_ in D for x in p_) > np.iinfo(dt).max if np.dtype(dt).kind in "iu" else False:
+                    continue
+                ctx.state(("int-dtype", weight, D, str(np.dtype(dt))))
+                img = np.asarray(ctx.call(im.transform, np.array(D, dtype=dt)))
+                ctx.valid()
+                tol = (1e-5 if dt is np.float32 else TOL) * max(1.0, wmax)
+                if img.shape != ref.shape or not np.all(np.abs(img - ref) <= tol):
+                    ctx.violation("pixel-value-int-dtype", "image of a diagram stored as %s differs from the weighted kernel mass of the equal float diagram" % np.dtype(dt),
+                                  observed=img.tolist(), expected=ref.tolist(), extra={"diagram": D, "dtype": str(np.dtype(dt)), "weight": weight})
+    ctx.nontriv("integer_dtype_diagrams")
+    ctx.outcome("int-dtype")
 
 
 def run_case(case, ctx):
     from persim import PersistenceImager
+
+    if case.get("kind") == "int-dtype":
+        return int_dtype_case(case, ctx)
 
     (br, pr), px, kernel = REGIONS[case["region"]], case["pixel"], KERNELS[case["kernel"]]
     okern = oracle_kernel(kernel)
